@@ -154,3 +154,53 @@ ext_spec('TlsExtensionPadding', 'padding',
 # ---- RFC 7507 / RFC 5746 3.3: signalling cipher suite values on the wire
 FALLBACK_SCSV = 0x5600
 EMPTY_RENEGOTIATION_INFO_SCSV = 0x00ff
+
+
+# ---- RFC 5246 7.4.1.2 / RFC 8446 4.1.2: ClientHello
+#   ProtocolVersion client_version; Random random (uint32 gmt_unix_time + opaque random_bytes[28]); SessionID session_id<0..32>;
+#   CipherSuite cipher_suites<2..2^16-2>; CompressionMethod compression_methods<1..2^8-1>; [Extension extensions<0..2^16-1>]
+# The signalling suites TLS_FALLBACK_SCSV (RFC 7507, 0x5600) and TLS_EMPTY_RENEGOTIATION_INFO_SCSV (RFC 5746 3.3, 0x00ff)
+# are ordinary entries of cipher_suites on the wire; the RFCs leave their position free, this function puts them last in
+# the order fallback, renegotiation.
+def random_struct(r):
+    t = r.f['time']
+    secs = t.secs if hasattr(t, 'secs') else __import__('calendar').timegm(t.utctimetuple())
+    return cat(u32(secs), flat(codes_of(r.f['random']), 1))
+
+
+@spec('TlsHandshakeHelloRandom')
+def tls_hello_random(o):
+    return random_struct(o)
+
+
+def client_hello_body(o, suites_codes, fallback, renegotiation):
+    from pyvc.values import SSeq
+    extra = []
+    if fallback is not False:
+        extra.append((fallback, FALLBACK_SCSV))
+    if renegotiation is not False:
+        extra.append((renegotiation, EMPTY_RENEGOTIATION_INFO_SCSV))
+    body = flat(suites_codes, 2)
+    for present, code in extra:
+        piece = u16(code)
+        if present is True:
+            body = cat(body, piece)
+        else:
+            body = cat(body, V.SSeq(z3.If(present, 2, 0), piece._at, 'bytes'))
+    exts = items_of(o.f['extensions'])
+    ext_bytes = cat(*[spec_of(e) for e in exts]) if len(exts) else None
+    parts = [version(o.f['protocol_version']), random_struct(o.f['random']), spec_of(o.f['session_id']), vec(2, body),
+             spec_of(o.f['compression_methods'])]
+    if ext_bytes is not None:
+        parts.append(vec(2, ext_bytes))
+    return cat(*parts)
+
+
+@spec('TlsHandshakeClientHello')
+def tls_client_hello(o):
+    def flag(v):
+        if isinstance(v, bool):
+            return v
+        return v.e
+    return handshake(1, client_hello_body(o, codes_of(o.f['cipher_suites']), flag(o.f['fallback_scsv']),
+                                          flag(o.f['empty_renegotiation_info_scsv'])))
